@@ -94,41 +94,53 @@ namespace Pistache::Tcp
                 handleNotify();
             }
 
-            else if (entry.isReadable())
+            else
             {
-                auto tag = entry.getTag();
-                if (isPeerFd(tag))
+                if (entry.isReadable())
                 {
-                    auto& peer = getPeer(tag);
-                    handleIncoming(peer);
-                }
-                else if (isTimerFd(tag))
-                {
-                    auto it      = timers.find(static_cast<decltype(timers)::key_type>(tag.value()));
-                    auto& entry_ = it->second;
-                    handleTimer(std::move(entry_));
-                    timers.erase(it->first);
-                }
-            }
-            else if (entry.isWritable())
-            {
-                auto tag = entry.getTag();
-                auto fd  = static_cast<Fd>(tag.value());
-
-                {
-                    Guard guard(toWriteLock);
-                    auto it = toWrite.find(fd);
-                    if (it == std::end(toWrite))
+                    auto tag = entry.getTag();
+                    if (isPeerFd(tag))
                     {
-                        throw std::runtime_error(
-                            "Assertion Error: could not find write data");
+                        auto& peer = getPeer(tag);
+                        handleIncoming(peer);
+                    }
+                    else if (isTimerFd(tag))
+                    {
+                        auto it      = timers.find(static_cast<decltype(timers)::key_type>(tag.value()));
+                        auto& entry_ = it->second;
+                        handleTimer(std::move(entry_));
+                        timers.erase(it->first);
                     }
                 }
 
-                reactor()->modifyFd(key(), fd, NotifyOn::Read, Polling::Mode::Edge);
+                // An edge-triggered event can report readable and writable
+                // together and the writable edge is not reported again, so it
+                // must not be dropped when the event is also readable
+                if (entry.isWritable())
+                {
+                    auto tag = entry.getTag();
+                    auto fd  = static_cast<Fd>(tag.value());
 
-                // Try to drain the queue
-                asyncWriteImpl(fd);
+                    {
+                        Guard guard(toWriteLock);
+                        auto it = toWrite.find(fd);
+                        if (it == std::end(toWrite))
+                        {
+                            // the peer may just have been closed while
+                            // handling the readable part of the event
+                            if (entry.isReadable())
+                                continue;
+
+                            throw std::runtime_error(
+                                "Assertion Error: could not find write data");
+                        }
+                    }
+
+                    reactor()->modifyFd(key(), fd, NotifyOn::Read, Polling::Mode::Edge);
+
+                    // Try to drain the queue
+                    asyncWriteImpl(fd);
+                }
             }
         }
     }
